@@ -10,9 +10,12 @@
 using namespace cs;
 static const size_t S = fo::S;
 static const unsigned char *KEY = fo::KEYS[0];
+// key alphabet for the wrong-key check: 0x00 first / no zero byte / 0x00 in the middle (a key is a binary string, not a C string)
+static const unsigned char KEYALT[3][16] = {{0x00, 0x11, 0x22, 0x33, 0x44, 0x55, 0x66, 0x77, 0x88, 0x99, 0xaa, 0xbb, 0xcc, 0xdd, 0xee, 0xff}, {0x2b, 0x7e, 0x15, 0x16, 0x28, 0xae, 0xd2, 0xa6, 0xab, 0xf7, 0x15, 0x88, 0x09, 0xcf, 0x4f, 0x3c}, {0x61, 0x62, 0x63, 0x64, 0x65, 0x66, 0x67, 0x00, 0x30, 0x31, 0x32, 0x33, 0x34, 0x35, 0x36, 0x37}};
+static const unsigned char *key_of(int kk) { return KEYALT[kk % 3]; }
 
 // ---- base files (made by the reference, not by wencry) ------------------------------------------------
-struct Base { int cm, hm, T; size_t n; };
+struct Base { int cm, hm, T; size_t n; bool self = false; int kk = 0; }; // self: file written by wencry's own encrypt instead of the reference
 static std::vector<size_t> base_sizes() { return {0, 5, 16, S - 1, S, 2 * S + 3}; }
 static std::vector<Base> bases(bool thorough, bool small) {
   std::vector<Base> v;
@@ -30,7 +33,16 @@ static std::vector<Base> bases(bool thorough, bool small) {
   return v;
 }
 static Bytes plain_of(const Base &b) { return fo::content(0, b.n); }
-static Bytes file_of(const Base &b) { return ref::encrypt(plain_of(b), KEY, b.cm, b.hm, fo::cstr_seed("seed"), b.T, S); }
+static Bytes file_of(const Base &b) {
+  static std::map<std::string, Bytes> cache;
+  std::string k = std::to_string(b.cm) + "," + std::to_string(b.hm) + "," + std::to_string(b.T) + "," + std::to_string(b.n) + "," + std::to_string(b.self) + "," + std::to_string(b.kk);
+  auto it = cache.find(k);
+  if (it != cache.end()) return it->second;
+  Bytes f;
+  if (b.self) { fo::OpResult e = fo::wc_encrypt(plain_of(b), key_of(b.kk), b.cm, b.hm, "seed", b.T); f = e.out; }
+  else f = ref::encrypt(plain_of(b), key_of(b.kk), b.cm, b.hm, fo::cstr_seed("seed"), b.T, S);
+  return cache[k] = f;
+}
 static std::string region(size_t off, const Base &b, size_t L) {
   size_t hl = ref::hlen_of(b.hm), hdr = 48 + 20 * (size_t)b.T;
   if (off < 8) return "magic";
@@ -173,6 +185,13 @@ static void build_tables(const Args &a) {
   MODE = a.str("mode", "c05");
   THOROUGH = a.str("tier", "quick") == "thorough";
   BASES = bases(THOROUGH, MODE == "c12");
+  { // the same files written by wencry's own encrypt ("files produced by encryption"): all of them for the key check, a third for the modification check
+    std::vector<Base> selfmade;
+    for (size_t i = 0; i < BASES.size(); i++)
+      if (MODE == "c06" || (MODE == "c05" && i % 3 == 0)) { Base b = BASES[i]; b.self = true; selfmade.push_back(b); }
+    if (MODE == "c06") { for (size_t i = 0; i < BASES.size(); i++) BASES[i].kk = (int)(i % 3); for (size_t i = 0; i < selfmade.size(); i++) selfmade[i].kk = (int)((i + 1) % 3); }
+    BASES.insert(BASES.end(), selfmade.begin(), selfmade.end());
+  }
   ROWS.clear();
   TOTAL = 0;
   if (MODE == "c05" || MODE == "c12") {
@@ -201,10 +220,10 @@ static Case get_case(size_t i) {
       if (r.kind < 100) {
         const Base &b = BASES[r.base];
         c.set("g", "mod").set("base", r.base).set("kind", r.kind).set("p", (long)p);
-        c.cls = "mod:" + std::string(MK[r.kind]) + ",cm=" + std::to_string(b.cm) + ",hm=" + std::to_string(b.hm) + ",T=" + std::to_string(b.T) + ",n=" + std::to_string(b.n);
+        c.cls = std::string(b.self ? "selfmade," : "") + "mod:" + std::string(MK[r.kind]) + ",cm=" + std::to_string(b.cm) + ",hm=" + std::to_string(b.hm) + ",T=" + std::to_string(b.T) + ",n=" + std::to_string(b.n);
       } else if (r.kind == 100) {
         c.set("g", "key").set("base", r.base).set("kidx", (long)p);
-        c.cls = "key:" + std::string(p < 128 ? "bit-neighbour" : "other") + ",base=" + std::to_string(r.base);
+        c.cls = std::string(BASES[r.base].self ? "selfmade," : "") + "key:" + std::string(p < 128 ? "bit-neighbour" : "other") + ",base=" + std::to_string(r.base);
       } else {
         c.set("g", "shape").set("i", (long)p);
         const Shape &s = C11[p];
@@ -214,7 +233,7 @@ static Case get_case(size_t i) {
     }
   return Case();
 }
-static void alt_key(size_t kidx, unsigned char *k) {
+static void alt_key(size_t kidx, unsigned char *k, const unsigned char *KEY) {
   memcpy(k, KEY, 16);
   if (kidx < 128) k[kidx / 8] ^= (unsigned char)(1u << (kidx % 8));
   else if (kidx == 128) memset(k, 0, 16);
@@ -270,8 +289,8 @@ static std::string run_key(const Case &c) {
   const Base &b = BASES[c.num("base")];
   Bytes F = file_of(b);
   unsigned char k[16];
-  alt_key((size_t)c.num("kidx"), k);
-  if (memcmp(k, KEY, 16) == 0) return "";
+  alt_key((size_t)c.num("kidx"), k, key_of(b.kk));
+  if (memcmp(k, key_of(b.kk), 16) == 0) return "";
   fo::OpResult v = fo::wc_verify(F, k, b.T), d = fo::wc_decrypt(F, k, b.T);
   if (MODE == "c12") {
     if (v.ret != d.ret) return "verify-decrypt-disagree|wrong key: verify " + std::string(v.ret ? "ok" : "fail") + ", decrypt " + (d.ret ? "ok" : "fail");
